@@ -4,6 +4,7 @@
 #include "lin.h"
 #include "inf_rational.h"
 #include "json.h"
+#include "verif_hooks.h"
 #include <vector>
 
 namespace smt
@@ -55,6 +56,16 @@ namespace smt
   public:
     row(lra_theory &th, const var x, lin l);
     row(const row &orig) = delete;
+#ifdef PSTLAB_ORATIO_VERIF
+    static void *operator new(std::size_t n) { return verif::on_row_alloc ? verif::on_row_alloc(n) : ::operator new(n); }
+    static void operator delete(void *p) noexcept
+    {
+      if (verif::on_row_free)
+        verif::on_row_free(p);
+      else
+        ::operator delete(p);
+    }
+#endif
 
   private:
     bool propagate_lb(const var &x) noexcept; // propagates the lower bound of variable 'x' on the tableau row returning whether propagation is successful..
